@@ -108,17 +108,14 @@ static int pool_init(ABT_pool pool, ABT_pool_config config)
     ABTI_UNUSED(config);
     int abt_errno = ABT_SUCCESS;
     ABTI_pool *p_pool = ABTI_pool_get_ptr(pool);
-    ABT_pool_access access;
 
     data_t *p_data;
     abt_errno = ABTU_malloc(sizeof(data_t), (void **)&p_data);
     ABTI_CHECK_ERROR(abt_errno);
 
-    access = p_pool->access;
-    if (access != ABT_POOL_ACCESS_PRIV) {
-        /* Initialize the mutex */
-        ABTD_spinlock_clear(&p_data->mutex);
-    }
+    /* Initialize the mutex.  A private pool needs it as well: pool_pop_wait()
+     * and pool_pop_timedwait() take it regardless of the access type. */
+    ABTD_spinlock_clear(&p_data->mutex);
     thread_queue_init(&p_data->queue);
 
     p_pool->data = p_data;
